@@ -1,5 +1,6 @@
 import PharmpyProofs.C15.ThreadInv
 import PharmpyProofs.C15.ProcInv
+import PharmpyProofs.C15.PoolInv
 /-
   C15 — Path locks give reader–writer exclusion without deadlock in every
   schedule.  Property theorems (thread level).  All statements quantify over
@@ -434,6 +435,60 @@ theorem lockf_granted_when_free {s : KS} (h : PReachable s) (p : Pid) (pd : Pend
   split
   · exact ⟨_, _, rfl, by simp⟩
   · exact ⟨_, _, rfl, by simp⟩
+
+/-! ## The keyed reference pools (thread locks by path, process locks by fd, fds by path) -/
+
+def PoolReachable (s : PoolSt) : Prop := ∃ evs, poolRun {} evs = some s
+
+theorem poolreachable_pinv {s : PoolSt} (h : PoolReachable s) : PInv s := by
+  obtain ⟨evs, h⟩ := h
+  exact poolRun_inv evs pinv_init h
+
+/-- **One object per key while anybody uses it** (the single-fd rule; all users of a path
+    share one thread lock and one process lock): two outstanding references to the same key
+    were handed the same object. -/
+theorem pool_single_object {s : PoolSt} (h : PoolReachable s) (t1 t2 k o1 o2 : Nat)
+    (h1 : (t1, k, o1) ∈ s.holders) (h2 : (t2, k, o2) ∈ s.holders) : o1 = o2 := by
+  have hi := poolreachable_pinv h
+  have e1 := hi.held _ h1
+  have e2 := hi.held _ h2
+  have := nodup_key_unique hi.nodup e1 e2 rfl
+  have := congrArg (fun e => e.2.1) this
+  simpa using this
+
+/-- The reference count of an entry is the number of outstanding references to its key. -/
+theorem pool_refcount {s : PoolSt} (h : PoolReachable s) (k o n : Nat) (he : (k, o, n) ∈ s.pool.refs) :
+    n = hcount s.holders k ∧ 0 < n := by
+  have := (poolreachable_pinv h).count _ he
+  simpa using this
+
+/-- **The destructor (closing the fd) never runs on an object somebody still uses.** -/
+theorem pool_live_not_destroyed {s : PoolSt} (h : PoolReachable s) (t k o : Nat)
+    (hh : (t, k, o) ∈ s.holders) : o ∉ s.pool.destroyed := by
+  have hi := poolreachable_pinv h
+  intro hd
+  have := (hi.dead o hd).2 _ (hi.held _ hh)
+  simp at this
+
+/-- **When the last user has left, the bookkeeping is empty** (and every created object has
+    been destroyed or never existed: nothing is left in the pool). -/
+theorem pool_quiescent_clean {s : PoolSt} (h : PoolReachable s) (hq : s.holders = []) :
+    s.pool.refs = [] := by
+  have hi := poolreachable_pinv h
+  cases hr : s.pool.refs with
+  | nil => rfl
+  | cons e es =>
+    exfalso
+    have := hi.count e (by rw [hr]; simp)
+    rw [hq] at this
+    simp [hcount] at this
+    omega
+
+-- non-vacuity: two users of one key share object 0; after both leave it is destroyed once
+example : ∃ s, poolRun {} [.enter 1 7, .enter 2 7, .exit 1 7] = some s ∧
+    s.holders = [(2, 7, 0)] ∧ s.pool.refs = [(7, 0, 1)] ∧ s.pool.destroyed = [] := ⟨_, rfl, by decide⟩
+example : ∃ s, poolRun {} [.enter 1 7, .enter 2 7, .exit 1 7, .exit 2 7, .enter 3 7] = some s ∧
+    s.pool.refs = [(7, 1, 1)] ∧ s.pool.destroyed = [0] := ⟨_, rfl, by decide⟩
 
 /-! ## `path_lock` = thread level (outside) + process level (inside) -/
 
